@@ -175,14 +175,25 @@ COMP = {
     "and3": ("", '$SYM[*][ gt(line_number(), @t1) @p1 gt(@t2, line_number()) ]'),
     "or3": ("~ logic-mode: OR ~ ", '$SYM[*][ gt(line_number(), @t1) @p1.asbool gt(@t2, line_number()) ]'),
     "when-assign": ("", '$SYM[*][ @x = line_number()  gt(@x, @t1) -> gt(@t2, @x)  @p1 ]'),
+    "counts": ("", '$SYM[*][ gt(count_scans(), @t1) gt(@t2, count_lines()) ]'),
     "nocontrib-last": ("", '$SYM[*][ gt(line_number(), @t1) @p1.nocontrib == 1 -> push("s", line_number()) last.nocontrib() -> push("l", line_number()) ]'),
 }
 
 
-def comp_oracle(tpl, t1, t2, p1):
+def comp_oracle(tpl, t1, t2, p1, b1, b2):
     """returned line numbers"""
     out = []
+    blanks = [False, b1, b2, False]
+    scans = 0
     for i in range(NREC):
+        if blanks[i]:
+            continue
+        scans += 1
+        if tpl == "counts":
+            # count_scans(): lines offered to the match part so far; count_lines(): 1-based count of data lines
+            if scans > t1 and t2 > scans:
+                out.append(i)
+            continue
         g = i > t1
         l = i < t2
         if tpl == "and3":
@@ -202,17 +213,18 @@ def comp_oracle(tpl, t1, t2, p1):
     "C01",
     "O2-composition",
     pre=["{LO} <= t1 <= {HI}", "{LO} <= t2 <= {HI}"],
-    post="_ == comp_oracle(tpl, t1, t2, p1)",
-    bound="4 stub records; 3-4 match components combined under AND and OR (logic-mode comment), '->', assignment used by a later "
+    post="_ == comp_oracle(tpl, t1, t2, p1, b1, b2)",
+    bound="4 stub records, records 1 and 2 blank or not by symbolic flags; 2-4 match components combined under AND and OR (logic-mode comment), '->', assignment used by a later "
     "component of the same line, nocontrib, a final last() ->; thresholds t1,t2 symbolic ints LO..HI, p1 a symbolic variable "
     "presence/truth flag; returned lines, once each, in order",
     outside="more than 4 components; more than 4 records; generated ASTs of depth 3-4",
     encodes=ENC + ["csvpath/csvpath.py:CsvPath.next/collect"],
     tiers={"quick": {"timeout": 900, "K": {"LO": -1, "HI": 5}, "shards": product(tpl=list(COMP))}},
 )
-def comp_run(tpl: str, t1: int, t2: int, p1: bool) -> List[int]:
+def comp_run(tpl: str, t1: int, t2: int, p1: bool, b1: bool, b2: bool) -> List[int]:
     comment, text = COMP[tpl]
-    p, pr = fresh(comment + text, [[str(i)] for i in range(NREC)])
+    blanks = [False, b1, b2, False]
+    p, pr = fresh(comment + text, [[] if blanks[i] else [str(i)] for i in range(NREC)])
     p.variables["t1"] = t1
     p.variables["t2"] = t2
     if tpl == "or3":
@@ -254,3 +266,20 @@ def float_vs_int(a: int, c: int) -> bool:
     p.variables["c"] = c
     p.track_line(["x", "y"])
     return p._consider_line(["x", "y"])
+
+
+@ob(
+    "C01",
+    "O1-cell-variable",
+    pre=["len(s) <= {N}"],
+    post="_ == True",
+    bound="'@v = #0  @v': a variable assigned from a cell holding any text of <= N characters (including the empty and blank "
+    "cell) and then used alone is an existence test: it holds because the variable is not None (docs/asbool.md)",
+    outside="cells longer than N",
+    encodes=ENC + ["csvpath/matching/productions/variable.py:Variable.matches", "csvpath/matching/productions/header.py:Header.to_value"],
+    tiers={"quick": {"timeout": 600, "K": {"N": 1}}, "thorough": {"timeout": 1800, "K": {"N": 2}}},
+)
+def cell_variable(s: str) -> bool:
+    p, pr = fresh("$SYM[*][ @v = #0  @v ]", [["h", "i"], ["1", "2"]])
+    p.track_line([s, "y"])
+    return p._consider_line([s, "y"])
